@@ -9,7 +9,7 @@ func init() {
 			"and every transfer out of a pool, spread-reward or incentive account is of exactly the amount the bookkeeping just computed, to the position owner, from the matching account; the set of functions that send coins from pool-owned accounts is closed.",
 		NotCovered:  []string{"that accumulated dust over a history covers every claim (magnitude argument over histories)", "lock-bound positions", "negative interval accumulator values"},
 		Assumptions: []string{"rounding classes of osmomath as proved by C12", "bank keeper SendCoins moves exactly the given coins or fails"},
-		MinObl:      83,
+		MinObl:      92,
 		Run:         runC01,
 	})
 }
@@ -49,6 +49,8 @@ func runC01(c *rules.Ctx) {
 	c.CheckedCall(SC, "cltypes.BankKeeper.SendCoins", []string{"k.bankKeeper", "ctx", "sender", "receiver", "sdk.NewCoins(sdk.NewCoin(denom1,amount1), sdk.NewCoin(denom0,amount0))"}, "exactly (amount0, amount1) in the pool's two denoms is sent", "")
 	// ---- swaps: fee split and the three transfers
 	clSwapSettleRules(c)
+	clScalingMigrationRules(c)
+	clCrossTickRules(c)
 	clUptimePositionRules(c)
 	// ---- reward growth and claims truncate
 	c.RoundRegion("x/concentrated-liquidity.SwapState.updateSpreadRewardGrowthGlobal", "", "DOWN", nil, 1, "spread-reward growth per unit of liquidity is truncated")
